@@ -109,7 +109,7 @@ def build_verus():
             raise S.SliceError("create_source_location_tables: splice anchor %r found %d times" % (anchor.strip(), fn.count(anchor)))
     # the ghost text names the function's position counter; take its name from the real text (`let mut <name> = 0;` is the
     # function's first statement) so that a rename of the local does not lose the proof
-    mctr = re.search(r'\{\n\s*let mut (\w+) = 0;\n\s*for line in &st\.lines \{', fn)
+    mctr = re.search(r'^\s*let mut (\w+) = 0;\s*$', fn[:fn.index(head)], re.M)
     if not mctr:
         raise S.SliceError("create_source_location_tables: position counter `let mut <name> = 0;` before the loop not found")
     ctr = mctr.group(1)
